@@ -36,12 +36,12 @@ PROPS = {
     "C03": {
         "module": "BiscuitModel.Props.C03",
         "streams": ["atten"],
-        "level_text": "Lean 4 theorems: attenuation_monotone_partial - END TO END over the executable authorizer of the model (Model/Authorizer.authorize: world construction, the fixpoint run, authorizer checks, authority checks, policies, the other blocks' checks): if the token extended by a first-party block is authorized by policy i, the original token's run stays within its limits and no expression fails while the extended token's checks and policies are evaluated, then the original token is authorized by the same policy i; worlds_vis_same (what the original world shows to anyone who does not trust the new block is what the extended world shows them), old_rules_avoid (no rule, check or policy that existed before trusts the appended block). They rest on theorems over the inductive derivability relation of C05 (which the engine computes exactly, run_exact): derives_mono (a block never removes a fact), derives_restrict (every pair derivable with the new block whose origin avoids it was derivable without it: base facts of the block carry its id, its rules stamp its id, old rules cannot see it), visible_facts_unchanged (for every trusted set not containing the new block the visible world is identical), old_scopes_exclude_new (no scope of an earlier block or of the authorizer reaches a newly appended block unless it names a key registered for it; previous stops at the element's own block). Together with C04's check/policy theorems (verdicts are functions of the visible facts) this is the attenuation argument; the end-to-end corollary over the executable authorize is listed as an open obligation. Tie: every generated (token, appended block, authorizer) is authorized with and without the block on the implementation and on the compiled model, full outcomes compared; and an implementation-only oracle checks the property itself (accepted extended => accepted original by the same policy; failed checks only grow) on every case where nobody names the new block's key.",
-        "level_note": "Trusted: Lean kernel (standard axioms), harness generator reach, JSON glue. Stated for evaluations without expression errors and non-binding limits (the property's quantifier). The end-to-end theorem is named _partial because it excludes third-party blocks (which are visible, by design, to the scopes naming their key - old_scopes_exclude_new states the exact condition) and evaluations with expression errors (whose outcome depends on iteration order: C11).",
+        "level_text": "Lean 4 theorems: attenuation_monotone_partial - END TO END over the executable authorizer of the model (Model/Authorizer.authorize: world construction, the fixpoint run, authorizer checks, authority checks, policies, the other blocks' checks): if the token extended by a first-party block is authorized by policy i, the original token's run stays within its limits and no expression fails while the extended token's checks and policies are evaluated, then the original token is authorized by the same policy i; attenuation_monotone_third_party_partial (THE SAME for a block carrying an external signature by a key k, provided no scope of the earlier blocks or of the authorizer names k - a scope naming k trusts, by design, whatever k signed; both are corollaries of attenuation_monotone_core, whose hypothesis OldSame says that every earlier element trusts the same origins with and without the appended block in the key map: oldSame_first_party, oldSame_unnamed via Lemmas/KeyMapCongr: the key map enters evaluation only through trustedFromScopes), worlds_vis_same (what the original world shows to anyone who does not trust the new block is what the extended world shows them), old_rules_avoid (no rule, check or policy that existed before trusts the appended block). They rest on theorems over the inductive derivability relation of C05 (which the engine computes exactly, run_exact): derives_mono (a block never removes a fact), derives_restrict (every pair derivable with the new block whose origin avoids it was derivable without it: base facts of the block carry its id, its rules stamp its id, old rules cannot see it), visible_facts_unchanged (for every trusted set not containing the new block the visible world is identical), old_scopes_exclude_new (no scope of an earlier block or of the authorizer reaches a newly appended block unless it names a key registered for it; previous stops at the element's own block). Tie: every generated (token, appended block, authorizer) is authorized with and without the block on the implementation and on the compiled model, full outcomes compared; and an implementation-only oracle checks the property itself (accepted extended => accepted original by the same policy; failed checks only grow) on every case where nobody names the new block's key.",
+        "level_note": "Trusted: Lean kernel (standard axioms), harness generator reach, JSON glue. Stated for evaluations without expression errors and non-binding limits (the property's quantifier). The end-to-end theorems are named _partial because they exclude evaluations with expression errors (whose outcome depends on iteration order: C11); a third-party block is covered whenever no earlier scope names its key (a scope that names the key is the designed way to trust it).",
         "rule": "atten stream: seeded tokens of 1-3 blocks plus one appended first- or third-party block (facts/rules over the same predicates as the authority, scopes incl. previous, keys shared with earlier blocks), generated authorizers; both tokens authorized on both sides; non-trivial = both outcomes are decisions (ok/nomatch/unauth); distinct = distinct case JSON",
         "trusted_base": ["harness/src/prog.rs, s_atten.rs, s_authz.rs", "lean/Codec.lean, lean/Driver.lean", "tools/props.py oracle_atten (used only to search for a failing input)"],
         "assumptions": ["error-free programs under non-binding limits"],
-        "open_obligations": ["attenuation_monotone for third-party blocks not named by any earlier scope (the lemmas old_scopes_exclude_new / derives_restrict cover it; the end-to-end composition is stated for first-party blocks)"],
+        "open_obligations": [],
     },
     "C11": {
         "module": "BiscuitModel.Props.C11",
@@ -183,9 +183,10 @@ PROPS = {
         "assumptions": [],
     },
     "C20": {
-        "module": "BiscuitModel.Props.C20",
+        "module": "BiscuitModel.Props.C20Parse",
+        "more_modules": ["BiscuitModel.Props.C20"],
         "streams": ["params"],
-        "level_text": "Lean 4 theorems about an executable model of parameter binding on source-level items (Model/Params: extract_parameters / collect_parameters, set / set_lenient / set_scope / set_scope_lenient, validate_parameters, apply_parameters for terms nested to any depth, map keys, expression values, closure bodies and scopes). The specification is the inductive relation Inst (the result is the item with every bound parameter replaced at its position by the bound term, nothing else changed): substTerm_inst and inst_functional (the substitution the builders perform is that relation, and the relation determines its result, whatever the value contains), bound_param_is_value, bound_string_is_one_literal (a bound string, printed, is read back as that one string - C14's theorem), subst_closed / substOps_closed / rule_apply_closed (when every declared parameter has a parameter-free value - a key position an integer or a string - and every scope parameter a key, NO parameter is left anywhere in the rule, so conversion meets none), missing_complete and missing_nil_iff (validation passes exactly when every declared name has a value and reports exactly the others), set_unknown_reported, set_lenient_unknown_ignored, set_scope_unknown_reported, set_known (a declared name gets exactly that value, no other name and not the item are touched). Tie: stream params - facts, rules, checks and policies with parameters injected at random at every kind of position, built through the constructors or through their printed source and the parser, bound by sequences of strict and lenient setters (all names, strict subsets, undeclared names, rebinding) to values over every term type including strings made of Datalog syntax; compared with the model: every setter's result, the validation verdict with the names it reports, and the item obtained from convert/convert_from against the model's substituted item; an implementation-only oracle requires that fact()/rule()/check()/policy() agree with validation, that the strict setters report undeclared names, and that no accepted item panics in conversion.",
+        "level_text": "Lean 4 theorems: bound_fact_reads_back (C20 composed with C14: bind the parameters of any fact to any values - any string at all - and print it; if the result is a fact of the grammar, the parser model reads the text back as exactly that fact, the values at the positions of the parameters and nothing else, and leaves whatever followed untouched: no value can close the fact early, add a term or start a new statement), any_string_is_a_value; and, about the builders' substitution itself, theorems about an executable model of parameter binding on source-level items (Model/Params: extract_parameters / collect_parameters, set / set_lenient / set_scope / set_scope_lenient, validate_parameters, apply_parameters for terms nested to any depth, map keys, expression values, closure bodies and scopes). The specification is the inductive relation Inst (the result is the item with every bound parameter replaced at its position by the bound term, nothing else changed): substTerm_inst and inst_functional (the substitution the builders perform is that relation, and the relation determines its result, whatever the value contains), bound_param_is_value, bound_string_is_one_literal (a bound string, printed, is read back as that one string - C14's theorem), subst_closed / substOps_closed / rule_apply_closed (when every declared parameter has a parameter-free value - a key position an integer or a string - and every scope parameter a key, NO parameter is left anywhere in the rule, so conversion meets none), missing_complete and missing_nil_iff (validation passes exactly when every declared name has a value and reports exactly the others), set_unknown_reported, set_lenient_unknown_ignored, set_scope_unknown_reported, set_known (a declared name gets exactly that value, no other name and not the item are touched). Tie: stream params - facts, rules, checks and policies with parameters injected at random at every kind of position, built through the constructors or through their printed source and the parser, bound by sequences of strict and lenient setters (all names, strict subsets, undeclared names, rebinding) to values over every term type including strings made of Datalog syntax; compared with the model: every setter's result, the validation verdict with the names it reports, and the item obtained from convert/convert_from against the model's substituted item; an implementation-only oracle requires that fact()/rule()/check()/policy() agree with validation, that the strict setters report undeclared names, and that no accepted item panics in conversion.",
         "level_note": "The macros' parameter path (set_macro_param) is exercised by the generated crate of C18, not by this stream. Substitution is modelled on the AST because that is what the builders do; that the printed form of the substituted item parses back to it is C14 (partial for whole expressions). Map-key collisions after binding (two entries of one map getting the same key) are skipped by the comparator: BTreeMap keeps one of them.",
         "rule": "params stream: corpus (the two fixed findings and the known one) first, then seeded items; non-trivial = the item has at least one parameter and one setter call; distinct = distinct case JSON",
         "trusted_base": ["harness/src/s_params.rs (generator, parameter injection), harness/src/s_print.rs (AST<->JSON)", "tools/props.py cmp_params (sets and maps compared as unordered), oracle_params", "lean/Codec.lean, lean/Driver.lean runParams (check/policy setters distribute over queries)"],
